@@ -120,13 +120,16 @@ Definition last_ok (d : list sample) (r : list sample) : bool :=
          end
   end.
 
+(* what is read over the 5m chunks / over the 1h chunks *)
+Definition level_ok (d : list sample) (r : list sample) : bool := reads_ok d r && last_ok d r.
+
 Definition pred_ok (c : case) : bool :=
   match c with
   | CCounter res1 res2 nc1 nc2 data read1 read2 prog pres =>
       if valid_input res1 res2 data then
         let d := keep_nonnan data in
-        reads_ok d read1 && last_ok d read1
-        && reads_ok d read2 && last_ok d read2
+        level_ok d read1
+        && level_ok d read2
         && forallb (fun o => match o with Some s => snd s =? adj_at d (fst s) | None => true end) pres
       else true
   end.
